@@ -279,7 +279,7 @@ def page_totals(rec, pages):
             rec.count('page_setup_raises_under_the_stub')
             continue
         rec.count('page_total_recomputations')
-        diff = {k: (got.get(k), want[k]) for k in want if abs((got.get(k) or 0) - want[k]) > 1e-6 * (1 + abs(want[k]))}
+        diff = {k: (got.get(k.split(' (')[0]), want[k]) for k in want if abs((got.get(k.split(' (')[0]) or 0) - want[k]) > (0.006 if '(JSON' in k else 1e-6 * (1 + abs(want[k])))}
         if diff:
             mixed = any(len({tuple(sorted(x.lower() for x in t.get('tags') or [] if x.lower() in SPECIAL)) for t in m['transactions']}) > 1
                         for cat in data['categoryView'].values() for sub in cat['subcategories'].values() for m in sub['merchants'].values())
@@ -304,6 +304,15 @@ def report_level(rec, rnd, n):
     try:
         for k in range(n):
             txns, _ = c12.gen_txns(rnd)
+            if k == 1 or k == 2:
+                # budgets whose printed totals are EXACTLY zero in one figure: no refund at all but an outgoing card payment tagged transfer (credits 0);
+                # income that is spent to the cent (cash flow 0)
+                def _t(nm, amt, tags, m):
+                    return {'amount': amt, 'tags': tags, 'merchant': nm, 'category': 'Fixed', 'subcategory': 'S', 'date': datetime(2025, m, 5), 'description': nm,
+                            'raw_description': nm.upper(), 'source': 'Amex', 'location': None}
+                txns = [_t('Grocer', 120.0, [], 1), _t('Grocer', 80.0, [], 2), _t('Card Payment', -500.0, ['transfer'], 2), _t('Broker', -50.0, ['investment'], 3)] if k == 1 else \
+                       [_t('Employer', -1450.0, ['income'], 1), _t('Rent', 1000.0, [], 1), _t('Grocer', 450.0, [], 2), _t('To Savings', 300.0, ['transfer'], 2), _t('From Savings', -300.0, ['transfer'], 3)]
+                rec.count('reports_with_a_total_that_is_exactly_zero')
             if rnd.random() < .3:
                 # a category whose merchants cancel exactly (a flight and the insurance pay-out for it): its transactions are classified one by one all the same
                 a_ = rnd.choice([300.0, 45.5, 1200.0])
@@ -338,6 +347,13 @@ def report_level(rec, rnd, n):
             n_cli = sum(len(d.get('transactions') or []) for d in stats['by_merchant'].values())
             pages.append((data, {'income': stats['income_total'], 'spending': stats['spending_total'], 'credits': stats['credits_total'],
                                  'investment': stats['investment_total'], 'transfers': stats['transfers_in'] - stats['transfers_out']}))
+            # ... and the same totals as `tally up --format json` prints them
+            try:
+                summ = json.loads(A.export_json(stats))['summary']
+                pages[-1][1].update({'income (JSON summary)': summ['income_total'], 'credits (JSON summary)': summ['credits_total']})
+                rec.count('json_summaries_compared_with_the_page')
+            except Exception as e:
+                rec.violation('export_json-fails', f'{type(e).__name__}: {e}', {'kind': 'report-level'})
             rec.count('page_vs_analysis_transaction_counts')
             if n_page != n_cli:
                 rec.violation('transactions-missing-from-what-the-page-classifies', f'the analysis classified {n_cli} transactions, the data the page recomputes its totals from '
